@@ -18,7 +18,7 @@ line_printer manifest_parser metrics missing_deps parser real_command_runner sta
 status_printer string_piece_util util version jobserver-posix subprocess-posix depfile_parser
 lexer ninja""".split()
 
-SIM_SRCS = "arena kernel glue scenario models world logdrv main".split()
+SIM_SRCS = "arena kernel glue scenario models world oracles driver logdrv main".split()
 
 WRAPS = """fopen fclose fileno stat stat64 fstat fstat64 mkdir remove unlink rename truncate chown
 open close read write fcntl getcwd chdir pipe posix_spawn posix_spawn_file_actions_adddup2
@@ -50,7 +50,7 @@ def variant_flags(variant):
     if variant == "san":
         return common + ["-O1", "-fsanitize=address,undefined", "-fno-sanitize-recover=undefined"], \
                ["-fsanitize=address,undefined"]
-    return common + ["-O1", "-DNDEBUG"], []
+    return common + ["-O1"], []
 
 
 def gen(variant, src_override=None):
